@@ -46,6 +46,11 @@ def gen_cases(tier, seed):
                     for s0 in range(0, n + 1, 2 if tier == 'quick' else 1):
                         for other in (['pause', 'p'], ['play']):
                             plist.append([{'at': s0, 'act': other}, {'at': ['listener', ev, k], 'act': act}])
+        # a listener that plays and pauses again (with another message) within one notification, while a pause is pending / carried out
+        for ev in ('running', 'waiting', 'paused'):
+            for s0 in range(0, n + 1, 2 if tier == 'quick' else 1):
+                plist.append([{'at': s0, 'act': ['pause', 'p']}, {'at': ['listener', ev, 1], 'act': ['play']}, {'at': ['listener', ev, 1], 'act': ['pause', 'second']}])
+                plist.append([{'at': s0, 'act': ['pause', 'p']}, {'at': ['listener', ev, 2], 'act': ['play']}, {'at': ['listener', ev, 2], 'act': ['pause', 'second']}])
         if tier == 'thorough':
             plist += [p for p in plans.sampled_placements(rng, n, ALPHABET, 3, 1500) if _relevant(p)]
             plist += [p for p in plans.sampled_placements(rng, n, ALPHABET, 4, 800) if _relevant(p)]
